@@ -91,3 +91,70 @@ func runHoistInd(c *Ctx, small bool) (bool, string) {
 	return true, fmt.Sprintf("hoistind: Apalache established Init => IndInv and IndInv /\\ Next => IndInv' for all %d conjuncts (%d keys, unbounded counters) in %.0fs",
 		len(hoistIndConjuncts), keys, time.Since(t0).Seconds())
 }
+
+// ./check formatsym : FormatTextSym.tla - the filler's invariants with symbolic widths and
+// parameters (Apalache, bounded list length: 8 tokens quick, 12 thorough).  Model-level.
+func init() {
+	register("formatsym", "other", func(c *Ctx) {
+		ok, msg := runFormatSym(c, c.Quick())
+		fmt.Println(msg)
+		c.CovSet("explanation", msg)
+		c.Cov("evaluations", 4)
+		c.Cov("distinct_nontrivial", 4)
+		if !ok {
+			c.Fatal("FormatTextSym: %s", msg)
+		}
+	})
+}
+
+func runFormatSym(c *Ctx, small bool) (bool, string) {
+	if _, err := exec.LookPath("apalache-mc"); err != nil {
+		return false, "apalache-mc not found"
+	}
+	dir, err := newScratch("formatsym")
+	if err != nil {
+		return false, err.Error()
+	}
+	defer os.RemoveAll(dir)
+	for _, f := range []string{"FormatStep.tla", "FormatTextSym.tla"} {
+		b, err := os.ReadFile(filepath.Join(verifRoot, "spec", f))
+		if err != nil {
+			return false, err.Error()
+		}
+		os.WriteFile(filepath.Join(dir, f), b, 0o644)
+	}
+	init, k := "Init12", 12
+	if small {
+		init, k = "Init8", 8
+	}
+	invs := []string{"Fits", "Discipline", "MovedOnlyIfNeeded", "WidthBook"}
+	res := make([]string, len(invs))
+	var wg sync.WaitGroup
+	t0 := time.Now()
+	for i, inv := range invs {
+		wg.Add(1)
+		go func(i int, inv string) {
+			defer wg.Done()
+			o, _ := apalache(dir, 40*time.Minute, "check", "--init="+init, "--next=Next", "--inv="+inv, fmt.Sprintf("--length=%d", k+1), "--out-dir=out."+inv, "FormatTextSym.tla")
+			switch {
+			case strings.Contains(o, "The outcome is: NoError"):
+				res[i] = "ok"
+			case strings.Contains(o, "violated"):
+				res[i] = "violated"
+			default:
+				res[i] = "undecided: " + tail(o, 200)
+			}
+		}(i, inv)
+	}
+	wg.Wait()
+	bad := []string{}
+	for i, r := range res {
+		if r != "ok" {
+			bad = append(bad, invs[i]+": "+r)
+		}
+	}
+	if len(bad) > 0 {
+		return false, strings.Join(bad, "; ")
+	}
+	return true, fmt.Sprintf("formatsym: Apalache found no violation of Fits, Discipline, MovedOnlyIfNeeded, WidthBook for any token list of <= %d tokens with arbitrary non-negative widths and parameters (%.0fs)", k, time.Since(t0).Seconds())
+}
